@@ -58,7 +58,13 @@ Proof.
             inversion E1; subst. eapply frame_trans; [|eapply IH; eauto].
             apply frame_tset. unfold same_shape; simpl; auto 10.
           * inversion E1; subst. apply frame_tset. unfold same_shape; simpl; auto 10.
-        + inversion E1; subst. apply frame_refl. }
+        + inversion E1; subst. apply frame_refl.
+        + match type of E1 with match ?c with _ => _ end = _ => destruct c as [vs|] end; [destruct (n =? trig)|].
+          * match type of E1 with (let '(_, _) := temit f ?gg d ?tt in _) = _ => destruct (temit f gg d tt) as [g2 l2] eqn:E2 end.
+            inversion E1; subst. eapply frame_trans; [|eapply IH; eauto].
+            apply frame_tset. unfold same_shape; simpl; auto 10.
+          * inversion E1; subst. apply frame_tset. unfold same_shape; simpl; auto 10.
+          * inversion E1; subst. apply frame_tset. unfold same_shape; simpl; auto 10. }
     eapply H; eauto.
 Qed.
 
@@ -118,6 +124,16 @@ Proof.
     + inversion E; subst. split; [|intros; apply NOREC; auto; congruence].
       eapply frame_trans; eauto. apply frame_tset. unfold same_shape; simpl; auto 10.
   - inversion E; subst. split; auto. intros. apply NOREC; auto. congruence.
+  - match type of E with match ?c with _ => _ end = _ => destruct c as [vs|] end; [destruct (n =? trig)|].
+    + match type of E with (let '(_, _) := temit f ?gg d ?tt in _) = _ => destruct (temit f gg d tt) as [g2 l2] eqn:E2 end.
+      inversion E; subst.
+      match type of E2 with temit f ?gg _ _ = _ => assert (Fb : frame g gg) end.
+      { eapply frame_trans; eauto. apply frame_tset. unfold same_shape; simpl; auto 10. }
+      destruct (REC _ _ _ _ Fb E2) as (F2 & H2). split; auto.
+    + inversion E; subst. split; [|intros; apply NOREC; auto; congruence].
+      eapply frame_trans; eauto. apply frame_tset. unfold same_shape; simpl; auto 10.
+    + inversion E; subst. split; [|intros; apply NOREC; auto; congruence].
+      eapply frame_trans; eauto. apply frame_tset. unfold same_shape; simpl; auto 10.
 Qed.
 
 Lemma tcount_fold f g n x : tcspec f -> TShape g -> alive g n -> length g <= S f + n ->
@@ -245,7 +261,7 @@ Proof.
   apply andb_true_iff in C. destruct C as [C1 C2]. apply Nat.eqb_eq in C1.
   apply TInv0_tset; auto.
   - unfold same_shape; simpl; auto 10.
-  - intros Ad. destruct (Hk Ad) as (Nk & Hk'). split; simpl; [unfold nd; congruence|]. intros _. unfold keys. simpl.
+  - intros Ad. destruct (Hk Ad) as (Nk & Hk'). split; simpl; [unfold nd; nocomb|]. intros _. unfold keys. simpl.
     change (fun kb : nat * list val => (fst kb, tl (snd kb))) with popf.
     rewrite keys_pop, Keq. auto.
   - intros Ad _. destruct (Hk Ad) as (Nk & Hk'). apply zip_ready_false. right. exists n. split; [apply Hk'; exact M|].
@@ -256,15 +272,15 @@ Proof.
 Qed.
 
 Lemma combine_take_inv ga d n x :
-  TInv0 ga -> tk (tget ga d) = TCombine ->
+  TInv0 ga -> is_comb (tk (tget ga d)) = true ->
   let nd := tget ga d in
   TInv0 (tset ga d (with_last nd (set_at (index_nat n (t_ups nd)) (Some x) (t_last nd)))).
 Proof.
   intros I K nd. apply TInv0_tset; auto.
   - unfold same_shape; simpl; auto 10.
-  - intros Ad. split; simpl; [|unfold nd; congruence]. intros _. rewrite set_at_length.
+  - intros Ad. split; simpl; [|unfold nd; intros K'; rewrite K' in K; discriminate]. intros _. rewrite set_at_length.
     destruct (i_data _ I d Ad) as (Hc & _). apply Hc; auto.
-  - intros _ K'. simpl in K'. unfold nd in K'. congruence.
+  - intros _ K'. simpl in K'. unfold nd in K'. rewrite K' in K. discriminate.
 Qed.
 
 Definition rcspec (f : nat) : Prop :=
@@ -312,7 +328,8 @@ Proof.
     + inversion E; subst. apply NOREC. congruence.
   - (* combine_latest *)
     destruct (mem n (t_ups (tget ga d))) eqn:M; [|inversion E].
-    pose proof (combine_take_inv ga d n x I K) as Ib. cbv zeta in Ib.
+    assert (KC : is_comb (tk (tget ga d)) = true) by (rewrite K; reflexivity).
+    pose proof (combine_take_inv ga d n x I KC) as Ib. cbv zeta in Ib.
     destruct (all_some_v (set_at (index_nat n (t_ups (tget ga d))) (Some x) (t_last (tget ga d)))) as [vs|].
     + match type of E with context [rdeliver f ?gg pa d ?tt] =>
         destruct (rdeliver f gg pa d tt) as [[[g2 p2] r2] l2] eqn:E2 end.
@@ -329,6 +346,18 @@ Proof.
     pose proof (edit_count ga e g1 r2 l2 I Pd E2 P c KP2 Hc1) as H.
     assert (Kd : TRSink <> TPipe) by congruence. specialize (NOREC Kd).
     rewrite !cnt_edge_app, !cnt_to_app in *. lia.
+  - (* combine_latest with an explicit emit_on *)
+    destruct (mem n (t_ups (tget ga d))) eqn:M; [|inversion E].
+    assert (KC : is_comb (tk (tget ga d)) = true) by (rewrite K; reflexivity).
+    pose proof (combine_take_inv ga d n x I KC) as Ib. cbv zeta in Ib.
+    destruct (all_some_v (set_at (index_nat n (t_ups (tget ga d))) (Some x) (t_last (tget ga d)))) as [vs|];
+      [destruct (n =? trig)|].
+    + match type of E with context [rdeliver f ?gg pa d ?tt] =>
+        destruct (rdeliver f gg pa d tt) as [[[g2 p2] r2] l2] eqn:E2 end.
+      inversion E; subst.
+      eapply REC; eauto. apply frame_tset. unfold same_shape; simpl; auto 10.
+    + inversion E; subst. apply NOREC. congruence.
+    + inversion E; subst. apply NOREC. congruence.
 Qed.
 
 Lemma rcount_fold f n x : rcspec f -> forall l g0 p0 ga pa la g' p' l',
@@ -508,6 +537,286 @@ Proof.
   vm_compute. repeat split; auto.
 Qed.
 
+(* ================================================================================================ *)
+(* combine_latest with an explicit emit_on emits only when that stream delivers                      *)
+(* ================================================================================================ *)
+
+(* every hand-over made by such a node z in the log is accounted for: the emission was started at z itself (top), or
+   the stream named by emit_on handed z something in the same log *)
+Definition trig_ok (K : nat -> tkind) (top : option nat) (l : list tdeliv) : Prop :=
+  forall z t c v, K z = TCombineOn t -> In (z, c, v) l -> Some z = top \/ exists w, In (t, z, w) l.
+
+Lemma trig_ok_nil K top : trig_ok K top [].
+Proof. intros z t c v _ []. Qed.
+
+Lemma trig_ok_ext K K' top l : (forall z, K' z = K z) -> trig_ok K top l -> trig_ok K' top l.
+Proof. intros E H z t c v Kz. rewrite E in Kz. eauto. Qed.
+
+Lemma trig_glue K n d (x : val) la l2 :
+  trig_ok K (Some n) la -> trig_ok K (Some d) l2 -> (forall t, K d = TCombineOn t -> n = t) ->
+  trig_ok K (Some n) ((la ++ [(n, d, x)]) ++ l2).
+Proof.
+  intros Ha H2 Hd z t c v Kz Hin. rewrite !in_app_iff in Hin. destruct Hin as [[Hin|Hin]|Hin].
+  - destruct (Ha z t c v Kz Hin) as [E|(w & Hw)]; auto. right. exists w. rewrite !in_app_iff. auto.
+  - destruct Hin as [Hin|[]]. inversion Hin; subst. auto.
+  - destruct (H2 z t c v Kz Hin) as [E|(w & Hw)].
+    + inversion E; subst. right. exists x. rewrite (Hd t Kz). rewrite !in_app_iff. simpl. auto.
+    + right. exists w. rewrite !in_app_iff. auto.
+Qed.
+
+Lemma trig_noglue K n d (x : val) la : trig_ok K (Some n) la -> trig_ok K (Some n) (la ++ [(n, d, x)]).
+Proof.
+  intros Ha z t c v Kz Hin. rewrite in_app_iff in Hin. destruct Hin as [Hin|[Hin|[]]].
+  - destruct (Ha z t c v Kz Hin) as [E|(w & Hw)]; auto. right. exists w. rewrite in_app_iff. auto.
+  - inversion Hin; subst. auto.
+Qed.
+
+Lemma trig_ok_none K d l : trig_ok K (Some d) l -> (forall t, K d <> TCombineOn t) -> trig_ok K None l.
+Proof.
+  intros H Hd z t c v Kz Hin. destruct (H z t c v Kz Hin) as [E|E]; auto. inversion E; subst. destruct (Hd t Kz).
+Qed.
+
+Lemma trig_ok_none_app K a b : trig_ok K None a -> trig_ok K None b -> trig_ok K None (a ++ b).
+Proof.
+  intros Ha Hb z t c v Kz Hin. apply in_app_iff in Hin. right.
+  destruct Hin as [Hin|Hin]; [destruct (Ha z t c v Kz Hin) as [E|(w & Hw)]|destruct (Hb z t c v Kz Hin) as [E|(w & Hw)]];
+    try discriminate; exists w; rewrite in_app_iff; auto.
+Qed.
+
+(* the deliveries of an edit (zip pairing its backlog) inserted into a running emission *)
+Lemma trig_glue_none K n d (x : val) la l2 :
+  trig_ok K (Some n) la -> trig_ok K None l2 -> trig_ok K (Some n) ((la ++ [(n, d, x)]) ++ l2).
+Proof.
+  intros Ha H2 z t c v Kz Hin. rewrite in_app_iff in Hin. destruct Hin as [Hin|Hin].
+  - destruct (trig_noglue K n d x la Ha z t c v Kz Hin) as [E|(w & Hw)]; auto. right. exists w. rewrite in_app_iff. auto.
+  - destruct (H2 z t c v Kz Hin) as [E|(w & Hw)]; [discriminate|]. right. exists w. rewrite in_app_iff. auto.
+Qed.
+
+Definition ttspec (f : nat) : Prop :=
+  forall g n x g' log, temit f g n x = (g', log) -> trig_ok (fun z => tk (tget g z)) (Some n) log.
+
+Lemma ttrig_step f g n x ga la d g1 l1 :
+  ttspec f -> frame g ga -> trig_ok (fun z => tk (tget g z)) (Some n) la ->
+  estep f n x (ga, la) d = (g1, l1) ->
+  frame g g1 /\ trig_ok (fun z => tk (tget g z)) (Some n) l1.
+Proof.
+  intros IH F Ha E.
+  assert (REC : forall gb y g2 l2, frame g gb -> temit f gb d y = (g2, l2) ->
+            (forall t, tk (tget g d) = TCombineOn t -> n = t) ->
+            frame g g2 /\ trig_ok (fun z => tk (tget g z)) (Some n) ((la ++ [(n, d, x)]) ++ l2)).
+  { intros gb y g2 l2 Fb E2 Hd. split; [eapply frame_trans; eauto using temit_frame0|].
+    apply trig_glue; auto. apply (trig_ok_ext (fun z => tk (tget gb z))); [|eapply IH; eauto].
+    intros z. symmetry. apply (fr_tk _ _ _ Fb). }
+  assert (Kd : tk (tget ga d) = tk (tget g d)) by (apply fr_tk; auto).
+  assert (FT : forall nd', same_shape (tget ga d) nd' -> frame g (tset ga d nd')).
+  { intros nd' S. eapply frame_trans; eauto. apply frame_tset; auto. }
+  unfold estep in E. destruct (tk (tget ga d)) eqn:K.
+  - destruct (temit f ga d x) as [g2 l2] eqn:E2. inversion E; subst. eapply REC; eauto. intros t Kt. congruence.
+  - inversion E; subst. split; auto. apply trig_noglue; auto.
+  - match type of E with (if ?c then _ else _) = _ => destruct c end.
+    + match type of E with (let '(_, _) := temit f ?gg d ?tt in _) = _ => destruct (temit f gg d tt) as [g2 l2] eqn:E2 end.
+      inversion E; subst.
+      refine (REC _ _ _ _ _ E2 _); [apply FT; unfold same_shape; simpl; auto 10|intros t Kt; congruence].
+    + inversion E; subst. split; [apply FT; unfold same_shape; simpl; auto 10|apply trig_noglue; auto].
+  - match type of E with match ?c with _ => _ end = _ => destruct c as [vs|] end.
+    + match type of E with (let '(_, _) := temit f ?gg d ?tt in _) = _ => destruct (temit f gg d tt) as [g2 l2] eqn:E2 end.
+      inversion E; subst.
+      refine (REC _ _ _ _ _ E2 _); [apply FT; unfold same_shape; simpl; auto 10|intros t Kt; congruence].
+    + inversion E; subst. split; [apply FT; unfold same_shape; simpl; auto 10|apply trig_noglue; auto].
+  - inversion E; subst. split; auto. apply trig_noglue; auto.
+  - match type of E with match ?c with _ => _ end = _ => destruct c as [vs|] end; [destruct (n =? trig) eqn:Et|].
+    + match type of E with (let '(_, _) := temit f ?gg d ?tt in _) = _ => destruct (temit f gg d tt) as [g2 l2] eqn:E2 end.
+      inversion E; subst. apply Nat.eqb_eq in Et.
+      refine (REC _ _ _ _ _ E2 _); [apply FT; unfold same_shape; simpl; auto 10|intros t Kt; congruence].
+    + inversion E; subst. split; [apply FT; unfold same_shape; simpl; auto 10|apply trig_noglue; auto].
+    + inversion E; subst. split; [apply FT; unfold same_shape; simpl; auto 10|apply trig_noglue; auto].
+Qed.
+
+Lemma temit_ttspec : forall f, ttspec f.
+Proof.
+  induction f as [|f IH]; intros g n x g' log E.
+  - simpl in E. inversion E; subst. apply trig_ok_nil.
+  - rewrite temit_S in E.
+    assert (H : forall l ga la, frame g ga -> trig_ok (fun z => tk (tget g z)) (Some n) la ->
+              fold_left (estep f n x) l (ga, la) = (g', log) -> trig_ok (fun z => tk (tget g z)) (Some n) log).
+    { induction l as [|d l IHl]; intros ga la F Ha E'; cbn [fold_left] in E'.
+      - inversion E'; subst. auto.
+      - destruct (estep f n x (ga, la) d) as [g1 l1] eqn:E1.
+        destruct (ttrig_step _ _ _ _ _ _ _ _ _ IH F Ha E1) as (F1 & H1). eapply IHl; eauto. }
+    eapply H; eauto using frame_refl, trig_ok_nil.
+Qed.
+
+Lemma zip_drain_trig : forall f g d g' l,
+  tk (tget g d) = TZip -> zip_drain f g d = (g', l) ->
+  frame g g' /\ trig_ok (fun z => tk (tget g z)) None l.
+Proof.
+  induction f as [|f IH]; intros g d g' l Kd E.
+  - simpl in E. inversion E; subst. split; [apply frame_refl|apply trig_ok_nil].
+  - rewrite zip_drain_S in E. destruct (zip_ready (tget g d)).
+    + set (g1 := tset g d (zip_pop (tget g d))) in *.
+      destruct (temit (S (length g)) g1 d (VTup (zip_heads (tget g d)))) as [g2 l1] eqn:E1.
+      destruct (zip_drain f g2 d) as [g3 l2] eqn:E2. inversion E; subst g3 l. clear E.
+      assert (F1 : frame g g1) by (apply frame_tset; unfold same_shape; simpl; auto 10).
+      assert (F2 : frame g1 g2) by (eapply temit_frame0; eauto).
+      assert (F02 : frame g g2) by (eapply frame_trans; eauto).
+      destruct (IH g2 d g' l2) as (F3 & H3); auto; [rewrite (fr_tk _ _ _ F02); auto|].
+      split; [eapply frame_trans; eauto|]. apply trig_ok_none_app.
+      * apply (trig_ok_none _ d); [|intros t; congruence].
+        apply (trig_ok_ext (fun z => tk (tget g1 z))); [intros z; symmetry; apply (fr_tk _ _ _ F1)|].
+        eapply temit_ttspec; eauto.
+      * apply (trig_ok_ext (fun z => tk (tget g2 z))); auto. intros z. symmetry. apply (fr_tk _ _ _ F02).
+    + inversion E; subst. split; [apply frame_refl|apply trig_ok_nil].
+Qed.
+
+Lemma edit_trig g e g2 r l :
+  TInv0 g -> wf_edit g e -> tedit0 g e = (g2, r, l) -> trig_ok (fun z => tk (tget g z)) None l.
+Proof.
+  intros I W E. destruct e as [u d|u d|n].
+  - rewrite tedit0_connect in E. inversion E; subst. apply trig_ok_nil.
+  - rewrite tedit0_disconnect in E. destruct W as ((_ & Au & _) & (_ & Ad & _)).
+    destruct (mem d (t_downs (tget g u))) eqn:M; [|inversion E; subst; apply trig_ok_nil].
+    apply mem_spec in M. cbv zeta in E. destruct I as [Sh Da Nw].
+    destruct (disconnect_raw g u d Sh Da Au Ad M) as (Sh1 & Da1 & Fl1 & Nw1 & _).
+    set (g1 := disconnect_g g u d) in *.
+    destruct (tk (tget g1 d)) eqn:K; try (inversion E; subst; apply trig_ok_nil).
+    destruct (zip_drain (S (btotal (t_bufs (tget g1 d)))) g1 d) as [g3 l3] eqn:E3. inversion E; subst.
+    destruct (zip_drain_trig _ _ _ _ _ K E3) as (_ & H).
+    apply (trig_ok_ext (fun z => tk (tget g1 z))); auto. intros z. symmetry. apply (proj2 Fl1 z).
+  - rewrite tedit0_destroy in E. inversion E; subst. apply trig_ok_nil.
+Qed.
+
+Definition rtspec (f : nat) : Prop :=
+  forall g p n x g' p' r log, TInv0 g -> pend_ok g p -> rdeliver f g p n x = (g', p', r, log) ->
+  trig_ok (fun z => tk (tget g z)) (Some n) log.
+
+Lemma rtrig_step f n x ga pa ra la d g1 p1 r1 l1 :
+  rtspec f -> TInv0 ga -> pend_ok ga pa -> trig_ok (fun z => tk (tget ga z)) (Some n) la ->
+  rstep f n x (ga, pa, ra, la) d = (g1, p1, r1, l1) ->
+  trig_ok (fun z => tk (tget ga z)) (Some n) l1.
+Proof.
+  intros IH I Pd Ha E. unfold rstep in E. destruct ra; [inversion E; subst; auto|].
+  assert (REC : forall gb y g2 p2 r2 l2, frame ga gb -> TInv0 gb -> rdeliver f gb pa d y = (g2, p2, r2, l2) ->
+            (forall t, tk (tget ga d) = TCombineOn t -> n = t) ->
+            trig_ok (fun z => tk (tget ga z)) (Some n) ((la ++ [(n, d, x)]) ++ l2)).
+  { intros gb y g2 p2 r2 l2 Fb Ib E2 Hd. apply trig_glue; auto.
+    apply (trig_ok_ext (fun z => tk (tget gb z))); [intros z; symmetry; apply (fr_tk _ _ _ Fb)|].
+    eapply IH; eauto. eapply pend_ok_frame; eauto. }
+  destruct (tk (tget ga d)) eqn:K.
+  - destruct (rdeliver f ga pa d x) as [[[g2 p2] r2] l2] eqn:E2. inversion E; subst.
+    eapply (REC ga); eauto using frame_refl. intros t Kt. congruence.
+  - inversion E; subst. apply trig_noglue; auto.
+  - destruct (mem n (map fst (t_bufs (tget ga d)))) eqn:M; [|inversion E; subst; apply trig_noglue; auto].
+    apply mem_spec in M.
+    destruct ((length (buf_get n (t_bufs (tget ga d)) ++ [x]) =? 1) &&
+              zip_ready (with_bufs (tget ga d) (buf_set n (buf_get n (t_bufs (tget ga d)) ++ [x]) (t_bufs (tget ga d))))) eqn:C.
+    + pose proof (zip_fire_inv ga d n x I K M C) as Ib. cbv zeta in Ib.
+      match type of E with context [rdeliver f ?gg pa d ?tt] =>
+        destruct (rdeliver f gg pa d tt) as [[[g2 p2] r2] l2] eqn:E2 end.
+      inversion E; subst.
+      refine (REC _ _ _ _ _ _ _ Ib E2 _); [apply frame_tset; unfold same_shape; simpl; auto 10|intros t Kt; congruence].
+    + inversion E; subst. apply trig_noglue; auto.
+  - destruct (mem n (t_ups (tget ga d))) eqn:M; [|inversion E; subst; apply trig_noglue; auto].
+    assert (KC : is_comb (tk (tget ga d)) = true) by (rewrite K; reflexivity).
+    pose proof (combine_take_inv ga d n x I KC) as Ib. cbv zeta in Ib.
+    destruct (all_some_v (set_at (index_nat n (t_ups (tget ga d))) (Some x) (t_last (tget ga d)))) as [vs|].
+    + match type of E with context [rdeliver f ?gg pa d ?tt] =>
+        destruct (rdeliver f gg pa d tt) as [[[g2 p2] r2] l2] eqn:E2 end.
+      inversion E; subst.
+      refine (REC _ _ _ _ _ _ _ Ib E2 _); [apply frame_tset; unfold same_shape; simpl; auto 10|intros t Kt; congruence].
+    + inversion E; subst. apply trig_noglue; auto.
+  - destruct pa as [[t e]|]; [|inversion E; subst; apply trig_noglue; auto].
+    destruct (t =? d); [|inversion E; subst; apply trig_noglue; auto].
+    simpl in Pd. rewrite (apply_edit_wf _ _ Pd) in E.
+    destruct (tedit0 ga e) as [[g2 r2] l2] eqn:E2. inversion E; subst.
+    apply trig_glue_none; auto. eapply edit_trig; eauto.
+  - destruct (mem n (t_ups (tget ga d))) eqn:M; [|inversion E; subst; apply trig_noglue; auto].
+    assert (KC : is_comb (tk (tget ga d)) = true) by (rewrite K; reflexivity).
+    pose proof (combine_take_inv ga d n x I KC) as Ib. cbv zeta in Ib.
+    destruct (all_some_v (set_at (index_nat n (t_ups (tget ga d))) (Some x) (t_last (tget ga d)))) as [vs|];
+      [destruct (n =? trig) eqn:Et|].
+    + match type of E with context [rdeliver f ?gg pa d ?tt] =>
+        destruct (rdeliver f gg pa d tt) as [[[g2 p2] r2] l2] eqn:E2 end.
+      inversion E; subst. apply Nat.eqb_eq in Et.
+      refine (REC _ _ _ _ _ _ _ Ib E2 _); [apply frame_tset; unfold same_shape; simpl; auto 10|intros t Kt; congruence].
+    + inversion E; subst. apply trig_noglue; auto.
+    + inversion E; subst. apply trig_noglue; auto.
+Qed.
+
+Lemma rdeliver_rtspec : forall f, rtspec f.
+Proof.
+  induction f as [|f IH]; intros g p n x g' p' r log I Pd E.
+  - simpl in E. inversion E; subst. apply trig_ok_nil.
+  - rewrite rdeliver_S in E.
+    assert (H : forall l ga pa ra la, evolve g p ga pa -> TInv0 ga -> pend_ok ga pa ->
+              trig_ok (fun z => tk (tget g z)) (Some n) la ->
+              fold_left (rstep f n x) l (ga, pa, ra, la) = (g', p', r, log) ->
+              trig_ok (fun z => tk (tget g z)) (Some n) log).
+    { induction l as [|d l IHl]; intros ga pa ra la Ev Ia Pa Ha E'; cbn [fold_left] in E'.
+      - inversion E'; subst. auto.
+      - destruct (rstep f n x (ga, pa, ra, la) d) as [[[g1 p1] r1] l1] eqn:E1.
+        destruct (rstep_spec _ _ _ _ _ _ _ _ _ _ _ _ (rdeliver_rspec f) Ia Pa E1) as (I1 & P1 & Ev1).
+        assert (KE : forall z, tk (tget ga z) = tk (tget g z)) by (intros z; eapply evolve_tk; eauto).
+        eapply (IHl g1 p1 r1 l1); eauto; [eapply evolve_trans; eauto|].
+        apply (trig_ok_ext (fun z => tk (tget ga z))); [intros z; symmetry; apply KE|].
+        eapply rtrig_step; eauto. apply (trig_ok_ext (fun z => tk (tget g z))); auto. }
+    eapply H; eauto using evolve_refl, trig_ok_nil.
+Qed.
+
+(* in ANY step of a legal history: if a combine_latest node z with emit_on = t handed something on, then the program
+   emitted directly at z, or t handed z something in that same step *)
+Theorem emit_on_only_when_triggered g o g' r log :
+  reachable g -> wf_op g o -> tstep g o = (g', r, log) ->
+  forall z t c v, tk (tget g z) = TCombineOn t -> In (z, c, v) log ->
+  (exists x, o = OEmit z x) \/ (exists x t' e, o = ORemit z x t' e) \/ exists w, In (t, z, w) log.
+Proof.
+  intros R W E z t c v Kz Hin. pose proof (reachable_inv g R) as I.
+  unfold tstep in E. destruct (tstep0 g o) as [[g0 r0] l0] eqn:E0. inversion E; subst. clear E.
+  assert (NONE : trig_ok (fun z => tk (tget g z)) None log -> exists w, In (t, z, w) log).
+  { intros H. destruct (H z t c v Kz Hin) as [E|E]; [discriminate|auto]. }
+  destruct o as [k ups|n x|u d|u d|n|n|n x t' e].
+  - rewrite tstep0_new in E0. inversion E0; subst. destruct Hin.
+  - rewrite tstep0_emit in E0. destruct (temit (S (length g)) g n x) as [g1 l1] eqn:E1. inversion E0; subst.
+    destruct (temit_ttspec _ _ _ _ _ _ E1 z t c v Kz Hin) as [E|E]; eauto. inversion E; subst. eauto.
+  - right. right. apply NONE. eapply (edit_trig g (EConnect u d)); eauto.
+  - right. right. apply NONE. eapply (edit_trig g (EDisconnect u d)); eauto.
+  - right. right. apply NONE. eapply (edit_trig g (EDestroy n)); eauto.
+  - rewrite tstep0_drop in E0. inversion E0; subst. destruct Hin.
+  - rewrite tstep0_remit in E0. destruct W as (_ & _ & _ & We & _).
+    destruct (rdeliver (S (length g)) g (Some (t', e)) n x) as [[[g1 p1] r1] l1] eqn:E1. inversion E0; subst.
+    destruct (rdeliver_rtspec _ g (Some (t', e)) n x g0 p1 r1 log I We E1 z t c v Kz Hin) as [E|E]; eauto.
+    inversion E; subst. eauto 10.
+Qed.
+
+(* non-vacuity: combine_latest(a, b, emit_on=a) through connect / disconnect of other inputs and of the trigger *)
+Definition c15on_ops : list top :=
+  [ ONew TPipe []; ONew TPipe []; ONew TPipe []; ONew (TCombineOn 0) [0; 1]; ONew TSink [3];
+    OEmit 1 (VInt 10%Z);                 (* b alone: nothing *)
+    OEmit 0 (VInt 1%Z);                  (* the trigger: (1, 10) *)
+    OEmit 1 (VInt 20%Z);                 (* b again: stored, not emitted *)
+    OConnect 2 3; OEmit 0 (VInt 2%Z);    (* a new input c: the node waits for it, even when the trigger delivers *)
+    OEmit 2 (VInt 7%Z);                  (* c delivers: complete, but c is not the trigger *)
+    OEmit 0 (VInt 3%Z);                  (* (3, 20, 7) *)
+    ODisconnect 1 3; OEmit 0 (VInt 4%Z); (* b's slot is gone: (4, 7) *)
+    ODisconnect 0 3; OEmit 2 (VInt 8%Z); (* the trigger input is gone: the node never emits again *)
+    ODrop 0; ODrop 1 ].                  (* a stays alive (emit_on references it), b is collected *)
+
+Example c15_emit_on_nonvacuous :
+  legal [] c15on_ops /\
+  map (fun o => (to_raised o, to_deliv o)) (skipn 5 (trun [] c15on_ops)) =
+    [ (false, [(1, 3, VInt 10%Z)]);
+      (false, [(0, 3, VInt 1%Z); (3, 4, VTup [VInt 1%Z; VInt 10%Z])]);
+      (false, [(1, 3, VInt 20%Z)]); (false, []);
+      (false, [(0, 3, VInt 2%Z)]); (false, [(2, 3, VInt 7%Z)]);
+      (false, [(0, 3, VInt 3%Z); (3, 4, VTup [VInt 3%Z; VInt 20%Z; VInt 7%Z])]);
+      (false, []);
+      (false, [(0, 3, VInt 4%Z); (3, 4, VTup [VInt 4%Z; VInt 7%Z])]);
+      (false, []); (false, [(2, 3, VInt 8%Z)]); (false, []); (false, []) ] /\
+  links_of (run_ops [] c15on_ops) =
+    [ (true, [], []); (false, [], []); (true, [], [3]); (true, [2], [4]); (true, [3], []) ].
+Proof.
+  split; [apply legalb_sound; vm_compute; reflexivity|]. split; vm_compute; reflexivity.
+Qed.
+
 Print Assumptions reentrant_untouched_sibling.
 Print Assumptions emit_forwarded_to_every_child.
 Print Assumptions reentrant_links_consistent.
@@ -516,3 +825,5 @@ Print Assumptions reentrant_next_emit_follows_new_topology.
 Print Assumptions c15_reentrant_nonvacuous.
 Print Assumptions c15_reentrant_sibling_nonvacuous.
 Print Assumptions reentrant_untouched_sibling_refuted.
+Print Assumptions emit_on_only_when_triggered.
+Print Assumptions c15_emit_on_nonvacuous.
